@@ -161,8 +161,8 @@ def sample_level(ctx, n_cases):
                 times[k0] = times[k0 - 1]
                 states[k0] = states[k0 - 1]
             elif cls == "first_last":
-                states[0, ax] = offset if rng.random() < 0.5 else states[0, ax]
-                states[-1, ax] = offset if rng.random() < 0.5 else states[-1, ax]
+                states[0, ax] = offset if rng.random() < 0.7 else states[0, ax]
+                states[-1, ax] = offset if rng.random() < 0.4 else states[-1, ax]
         g = states @ normal - offset
         # keep non-planted samples clearly off the surface so the model is unambiguous
         near = (np.abs(g) < 1e-7) & (g != 0.0)
@@ -195,6 +195,23 @@ def sample_level(ctx, n_cases):
         real_extra = match_hits(ctx, tag, times, states, g, direction, hits, cand, dd[0], dd[1], max_hits, pidx, True, wit)
         ctx.check(not real_extra, "T1:no hit without a sign change or on-surface sample",
                   lambda: {**wit(), "extra_times": [hits[i].time for i in real_extra], "lib_times": [h.time for h in hits]})
+        # locality (metamorphic): a hit is determined by the samples around its own bracket, so mirroring the LAST sample across the
+        # plane must not change any hit that lies before the last three segments
+        if N >= 6 and it % 2 == 0:
+            nn = float(normal @ normal)
+            st2 = states.copy()
+            st2[-1] = states[-1] - 2.0 * g[-1] * normal / nn
+            if abs(float(st2[-1] @ normal - offset)) >= 1e-7 or g[-1] == 0.0:
+                try:
+                    hits2 = run_detector(be, times.copy(), st2, **kw)
+                    tcut = times[N - 4]
+                    a1 = [(h.time, tuple(np.round(h.state, 12))) for h in hits if h.time < tcut]
+                    a2 = [(h.time, tuple(np.round(h.state, 12))) for h in hits2 if h.time < tcut]
+                    if max_hits is None:
+                        ctx.check(a1 == a2, "T1:hits do not depend on samples far from their bracket (last sample mirrored)",
+                                  lambda: {**wit(), "hits": [x[0] for x in a1], "hits_after_mirroring_last_sample": [x[0] for x in a2]})
+                except Exception as exc:
+                    ctx.check(False, "T1:detector returns (no exception on valid input)", lambda: {**wit(), "error": repr(exc)[:300]})
         for h in hits:
             ctx.check(h.trajectory_index == kw["trajectory_index"], "T1:trajectory index carried", wit)
             gv = float(np.dot(h.state, normal) - offset)
